@@ -139,6 +139,14 @@ func modeSchedFree(a args) {
 		}
 		runBarrierK(a, r, 20000+i, 40+24*(i%2), false)
 	}
+	// a stage that becomes eligible while another task is inside its after-hook (or before-hook) runs at once
+	nh := a.n(4, 40)
+	for i := 0; i < nh; i++ {
+		if !a.mine(i) {
+			continue
+		}
+		runHookBarrier(a, i)
+	}
 	// C01 with real processes: a dependency whose command overruns its timeout and ignores the interrupt, in a
 	// stage that tolerates failure; the dependant must not start while that command is still executing
 	nt := a.n(3, 24)
@@ -148,6 +156,55 @@ func modeSchedFree(a args) {
 		}
 		runTimeoutDep(a, i)
 	}
+}
+
+// runHookBarrier: task A sits in a hook (after or before, by index) until stage B has started; B depends on X,
+// which finishes only once A is inside that hook. Nothing orders A and B, so B has to run while A's hook is open.
+func runHookBarrier(a args, idx int) {
+	dir := filepath.Join(a.Work, fmt.Sprintf("hookbarrier.%d", idx))
+	os.MkdirAll(dir, 0o755)
+	defer os.RemoveAll(dir)
+	wait := func(file string) string {
+		return fmt.Sprintf("n=0; while [ ! -e '%s/%s' ]; do sleep 0.01; n=$((n+1)); if [ $n -gt 1000 ]; then exit 1; fi; done", dir, file)
+	}
+	hook := fmt.Sprintf(": > '%s/hook.open'; %s; : > '%s/hook.saw-b'", dir, wait("b.started"), dir)
+	ta := task.FromCommands("true")
+	ta.Name = "a"
+	where := "after"
+	if idx%2 == 1 {
+		where = "before"
+		ta.Before = []string{hook}
+	} else {
+		ta.After = []string{hook}
+	}
+	tx := task.FromCommands(wait("hook.open") + "; sleep 0.05")
+	tx.Name = "x"
+	tb := task.FromCommands(fmt.Sprintf(": > '%s/b.started'", dir))
+	tb.Name = "b"
+	g, err := scheduler.NewExecutionGraph(&scheduler.Stage{Name: "a", Task: ta}, &scheduler.Stage{Name: "x", Task: tx}, &scheduler.Stage{Name: "b", Task: tb, DependsOn: []string{"x"}})
+	if err != nil {
+		return
+	}
+	out.Begin(fmt.Sprintf("hook-barrier#%d %s", idx, where))
+	tr := newQuietRunner()
+	sch := scheduler.NewScheduler(tr)
+	sch.VerifSetPause(time.Millisecond)
+	done := make(chan error, 1)
+	go func() { done <- sch.Schedule(g) }()
+	cas := map[string]interface{}{"hook": where}
+	select {
+	case <-done:
+	case <-time.After(90 * time.Second):
+		out.Viol("C04", "hook-barrier-hung", "pipeline in which a stage becomes eligible while another task's "+where+"-hook is open did not return in 90 s", cas)
+		return
+	}
+	lockedFinish(sch.Finish)
+	out.Count("executions", 1)
+	out.Count("hook_barrier_pipelines", 1)
+	if _, err := os.Stat(dir + "/hook.saw-b"); err != nil {
+		out.Viol("C04", "eligible-stage-held-back-by-a-hook", "stage b became eligible while task a was inside its "+where+"-hook and did not execute until that hook had given up waiting for it", cas)
+	}
+	out.Nontrivial("C04", fmt.Sprint("hook-barrier", idx))
 }
 
 func runTimeoutDep(a args, idx int) {
